@@ -156,6 +156,28 @@ impl Conv for Vec<i32> {
     }
 }
 
+impl Conv for Option<i32> {
+    fn to_value(&self) -> Value {
+        Value::List(self.iter().map(|x| *x as i64).collect())
+    }
+    fn from_value(v: &Value) -> Self {
+        match v {
+            Value::List(l) => l.first().map(|x| *x as i32),
+            _ => panic!("nvrt: bad value kind for Option<i32>"),
+        }
+    }
+}
+impl Conv for [i32; 3] {
+    fn to_value(&self) -> Value {
+        Value::List(self.iter().map(|x| *x as i64).collect())
+    }
+    fn from_value(v: &Value) -> Self {
+        match v {
+            Value::List(l) => [l.first().copied().unwrap_or(0) as i32, l.get(1).copied().unwrap_or(0) as i32, l.get(2).copied().unwrap_or(0) as i32],
+            _ => panic!("nvrt: bad value kind for [i32; 3]"),
+        }
+    }
+}
 impl Conv for Vec<f64> {
     fn to_value(&self) -> Value {
         Value::List(self.iter().map(|x| x.to_bits() as i64).collect())
